@@ -115,6 +115,9 @@ func main() {
 				allDigits = false
 			}
 		}
+		if allDigits {
+			check(err == nil || errors.Is(err, strconv.ErrRange), "Atoi(%q): digits only but %v", s, err)
+		}
 		if allDigits && len(s) <= 18 {
 			check(err == nil && v >= 0, "Atoi(%q): %v", s, err)
 		}
